@@ -44,7 +44,7 @@ type recSpec struct {
 	NoDef bool     `json:"no_default_alpn"`
 }
 
-var alpnChoices = [][]string{nil, {"h3"}, {"h2"}, {"h3", "h2"}, {"http/1.1"}, {"foo"}}
+var alpnChoices = [][]string{nil, {"h3"}, {"h2"}, {"h3", "h2"}, {"http/1.1"}, {"foo"}, {"h3-29", "h2"}} // "h3-29" (a draft version id) is not "h3"
 
 func recDomain() []recSpec {
 	var out []recSpec
@@ -254,6 +254,18 @@ func (o origin) key() string { return o.Scheme + "://" + o.Host + ":" + o.Port }
 var origins = []origin{
 	{"https", "a.example", ""}, {"https", "b.example", ""}, {"https", "a.example", "8443"}, {"https", "b.example", "8443"},
 	{"http", "a.example", ""}, {"http", "b.example", ""}, {"http", "a.example", "8443"}, {"http", "b.example", "8443"},
+	// IPv6-literal origins (used by a dedicated family only): the textual forms "[fd00::443]:8443" and "[fd00::]:8443" must not
+	// be confused with one another, nor with "[fd00::]:443"
+	{"https", "[fd00::443]", "8443"}, {"https", "[fd00::]", "8443"}, {"https", "[fd00::]", ""}, {"https", "[fd00::8443]", ""},
+}
+
+const firstLiteralOrigin = 8
+
+func (o origin) literal() string {
+	if strings.HasPrefix(o.Host, "[") {
+		return strings.Trim(o.Host, "[]")
+	}
+	return ""
 }
 
 // zone kinds: 0 no HTTPS records, 1 service records (also for the _8443._https names), 2 alias to c.example (own address)
@@ -370,7 +382,7 @@ type histCase struct {
 func runHistory(hc histCase, host string) (key, what string) {
 	srv := mux.Server(host)
 	srv.Zone = zoneFor(hc.Zone)
-	w := &world{cert: tlsx.Leaf(0, false, "a.example", "b.example", "c.example")}
+	w := &world{cert: tlsx.Leaf(0, false, "a.example", "b.example", "c.example", "fd00::443", "fd00::", "fd00::8443")}
 	tr := ech.NewTransport()
 	tr.Resolver, _ = ech.NewResolver("https://" + host + "/dns-query")
 	tr.TLSConfig = &tls.Config{RootCAs: tlsx.Pool()}
@@ -386,7 +398,7 @@ func runHistory(hc histCase, host string) (key, what string) {
 		w.dials = append(w.dials, addr+"|"+tc.ServerName)
 		w.mu.Unlock()
 		ip, _, _ := net.SplitHostPort(addr)
-		if ip != "192.0.2.1" && ip != "192.0.2.3" {
+		if ip != "192.0.2.1" && ip != "192.0.2.3" && ip != "fd00::443" && ip != "fd00::" && ip != "fd00::8443" {
 			return nil, errors.New("no route to " + addr)
 		}
 		a, b := memnet.Pipe()
@@ -467,12 +479,20 @@ func runHistory(hc histCase, host string) (key, what string) {
 		if s.host != wantHost {
 			return "host-header", fmt.Sprintf("%s: server saw Host %q, want %q", tag, s.host, wantHost)
 		}
-		if s.sni != o.Host {
+		if o.literal() != "" {
+			if s.sni != "" {
+				return "sni", fmt.Sprintf("%s: TLS SNI %q for an IP-literal origin", tag, s.sni)
+			}
+		} else if s.sni != o.Host {
 			return "sni", fmt.Sprintf("%s: TLS SNI %q, want the URL's host %q", tag, s.sni, o.Host)
 		}
 		for _, d := range newDials {
 			parts := strings.Split(d, "|")
-			if parts[1] != o.Host {
+			if o.literal() != "" {
+				if parts[1] != o.literal() && parts[1] != o.Host {
+					return "dial-server-name", fmt.Sprintf("%s: DialFunc got ServerName %q for the literal %s", tag, parts[1], o.Host)
+				}
+			} else if parts[1] != o.Host {
 				return "dial-server-name", fmt.Sprintf("%s: DialFunc got ServerName %q, want %q", tag, parts[1], o.Host)
 			}
 			wantPort := o.Port
@@ -485,6 +505,9 @@ func runHistory(hc histCase, host string) (key, what string) {
 			wantIP := "192.0.2.1"
 			if hc.Zone == 2 {
 				wantIP = "192.0.2.3"
+			}
+			if o.literal() != "" {
+				wantIP = o.literal()
 			}
 			if ip, _, _ := net.SplitHostPort(parts[0]); ip != wantIP {
 				return "dial-address", fmt.Sprintf("%s: dialed %s, want address %s", tag, parts[0], wantIP)
@@ -523,7 +546,7 @@ func histories(r *ev.Run) {
 	}
 	var cases []histCase
 	for z := 0; z < 3; z++ {
-		enum.Sequences(len(origins), depth, func(seq []int) {
+		enum.Sequences(firstLiteralOrigin, depth, func(seq []int) {
 			if len(seq) == 0 {
 				return
 			}
@@ -534,6 +557,17 @@ func histories(r *ev.Run) {
 			}
 		})
 	}
+	// IPv6-literal origins: every sequence of length <=3 over the four literals (no DNS involved)
+	enum.Sequences(len(origins)-firstLiteralOrigin, 3, func(seq []int) {
+		if len(seq) == 0 {
+			return
+		}
+		var s2 []int
+		for _, i := range seq {
+			s2 = append(s2, firstLiteralOrigin+i)
+		}
+		cases = append(cases, histCase{Zone: 0, Seq: s2})
+	})
 	// depth-3 sequences over the pairs that could collide in a connection pool (same host different port/scheme), also in quick
 	if !r.Thorough() {
 		for z := 1; z < 3; z++ {
@@ -578,7 +612,7 @@ func histories(r *ev.Run) {
 }
 
 func Run(r *ev.Run) {
-	r.Rule("part 1 (E1, exhaustive decision table): every set of 1..3 service-mode HTTPS records with distinct priorities over ALPN {none,[h3],[h2],[h3,h2],[http/1.1],[foo]} x no-default-alpn x {HTTP3Transport nil, set and failing, set and answering}: which round-tripper runs, which records reach the dialer, and that an HTTP/3 answer comes back attributed to the caller's own request (observed by dialing through the context-carried resolver, each record identified by a distinct port) vs a reference; part 2 (E4): every request history of length <=3 (thorough 4) over 8 origins {http,https} x {a.example,b.example (same address)} x {default port, 8443} x 3 zones {no HTTPS records, service records, alias to c.example with its own address}, with a Host override / with an empty Host field / plain, through the real net/http client and Transport over in-memory TLS servers: plaintext never used, http upgraded iff HTTPS records exist, ServerName/SNI = the URL's host, Host header preserved, dial address/port, resp.Request identity, and no server connection shared between origins. distinct = distinct cases")
+	r.Rule("part 1 (E1, exhaustive decision table): every set of 1..3 service-mode HTTPS records with distinct priorities over ALPN {none,[h3],[h2],[h3,h2],[http/1.1],[foo],[h3-29,h2]} x no-default-alpn x {HTTP3Transport nil, set and failing, set and answering}: which round-tripper runs, which records reach the dialer, and that an HTTP/3 answer comes back attributed to the caller's own request (observed by dialing through the context-carried resolver, each record identified by a distinct port) vs a reference; part 2 (E4): every request history of length <=3 (thorough 4) over 8 origins {http,https} x {a.example,b.example (same address)} x {default port, 8443} x 3 zones {no HTTPS records, service records, alias to c.example with its own address}, plus every history of length <=3 over four IPv6-literal https origins ([fd00::443]:8443, [fd00::]:8443, [fd00::], [fd00::8443]), with a Host override / with an empty Host field / plain, through the real net/http client and Transport over in-memory TLS servers: plaintext never used, http upgraded iff HTTPS records exist, ServerName/SNI = the URL's host, Host header preserved, dial address/port, resp.Request identity, and no server connection shared between origins. distinct = distinct cases")
 	r.Assume("net/http and crypto/tls run goroutines outside any scheduler: a failing history is re-executed and reported only if it fails 5/5", "record sets with equal priorities are excluded (their relative order is unspecified)", "HTTP/3 itself is represented by a fake round-tripper that dials through the context-carried resolver")
 	muxOnce.Do(func() { dns.VerifRoundTripper = mux })
 	t0 := time.Now()
